@@ -905,7 +905,9 @@ int32 matrixSslGetReadbufOfSize(ssl_t *ssl, int32 size, unsigned char **buf)
         if ((p = psRealloc(ssl->inbuf, ssl->inlen + size, ssl->bufferPool))
             == NULL)
         {
-            ssl->inbuf = NULL; ssl->insize = 0; ssl->inlen = 0;
+            /* A failed realloc leaves the old block (and the partial
+               record buffered in it) valid: keep it, it is released with
+               the session. */
             return PS_MEM_FAIL;
         }
         ssl->inbuf = p;
